@@ -335,9 +335,9 @@ pub fn run_image(
             }
             if let Some(v) = check_prefix(&sc, parser, full, &got) {
                 sc.mode = format!("prefix/{}", parser.name());
-                return C18Outcome {
-                    violation: Some((sc, v)),
-                };
+                if let Some(out) = confirm_single_query(&sc, &v, rep) {
+                    return out;
+                }
             }
         }
     }
@@ -374,13 +374,40 @@ pub fn run_image(
             }
             if let Some(v) = check_append(&sc, parser, full, &got, strict) {
                 sc.mode = format!("append/{}", parser.name());
-                return C18Outcome {
-                    violation: Some((sc, v)),
-                };
+                if let Some(out) = confirm_single_query(&sc, &v, rep) {
+                    return out;
+                }
             }
         }
     }
     C18Outcome { violation: None }
+}
+
+/// C18 is about each query as a function of the bytes; the property has no history in it.
+/// A stream-side difference found inside a shared-stream history is therefore re-judged
+/// with that single query on fresh streams. If it vanishes, the tree's stream answers
+/// depend on the call history (C07's subject) and the case is recorded as inconclusive.
+fn confirm_single_query(sc: &Scenario, v: &Violation, rep: &mut Report) -> Option<C18Outcome> {
+    let mut one = sc.clone();
+    one.ops.retain(|o| o.id == v.at_op_id);
+    match judge(&one) {
+        Some(v1) => Some(C18Outcome {
+            violation: Some((one, v1)),
+        }),
+        None => {
+            rep.add("inconclusive_history_sensitive", 1);
+            if rep.notes.len() < 8 {
+                rep.notes.push(
+                    J::obj()
+                        .with("kind", J::s("inconclusive_history_sensitive"))
+                        .with("run", J::u(sc.run))
+                        .with("seed", J::u(sc.seed))
+                        .with("op", J::s(&v.op)),
+                );
+            }
+            None
+        }
+    }
 }
 
 /// Re-judge a replayed / minimised C18 scenario from scratch.
